@@ -114,10 +114,21 @@ def run(chk, prog):
             fld = A.this_field(A.call_object(x))
             idx = A.index(pf)
             enc = A.enclosing(idx, x, {"IfStmt"})
+            objtxt = fld or A.show(A.strip(A.call_object(x))).replace(" ", "").lstrip("*")
             ok = bool(enc) and any(y["k"] == "StringLiteral" and y["value"] == "/dev/null" for y in A.walk(enc[0]["cond"])) and \
-                fld in A.show(enc[0]["cond"])
-            chk.check(ok, "R2", A.loc(pf, x), "parse() clears %s only to normalise the documented '/dev/null' spelling of 'none'" % fld,
-                      "parse:clear:%s" % fld)
+                objtxt in A.show(enc[0]["cond"])
+            chk.check(ok, "R2", A.loc(pf, x), "parse() clears %s only to normalise the documented '/dev/null' spelling of 'none'" % objtxt,
+                      "parse:clear:%s" % objtxt)
+            # notify() writes every bound field again from the map: a normalisation that a later notify can reach is undone
+            # (the raw '/dev/null' comes back as a file name when a config file is loaded)
+            from .. import flow as Fl_
+            gpf = Fl_.CFG(pf)
+            is_notify_ = Fl_.is_call_to("boost::program_options::notify")
+            pos_ = [(b_, i_) for b_, i_, n_ in gpf.events(lambda n_: n_.get("id") == x["id"])]
+            A.require(len(pos_) == 1, "parse: clear() call not found in the control-flow graph")
+            undone = gpf.some_path_between(pos_[0], is_notify_)
+            chk.check(not undone, "R2", A.loc(pf, x), "the normalisation of %s is not followed by a notify() that would restore the raw value" % objtxt,
+                      "parse:clear-before-notify:%s" % objtxt)
     chk.ok("R2", pf.where, "writers of _vm and of bound fields enumerated over all ProgramOptions methods")
     _, muts = O.vm_mutations(prog)
     A.require(len(muts) >= 2, "parse: changes of the variables map not found")
